@@ -105,6 +105,19 @@ pub struct Built {
     pub wd:      std::rc::Rc<CountingWatchdog>,
 }
 
+/// Length of a fixed array from its code in a judgement: codes below 1000 are the length itself, the
+/// codes from 1000 name lengths that do not fit 64 bits (equal low words, different high words)
+pub fn fa_len(code: u64) -> ethnum::U256 {
+    use ethnum::U256;
+    match code {
+        1000 => (U256::ONE << 64) + U256::new(3),
+        1001 => (U256::ONE << 64) + U256::new(2),
+        1002 => (U256::ONE << 128) + U256::new(3),
+        1003 => (U256::ONE << 255) + U256::new(2),
+        n => U256::from(n),
+    }
+}
+
 pub fn to_te(j: &J, vars: &[TypeVariable]) -> TE {
     match j {
         J::Any => TE::Any,
@@ -115,7 +128,7 @@ pub fn to_te(j: &J, vars: &[TypeVariable]) -> TE {
         J::DynArray(e) => TE::dyn_array(vars[*e]),
         J::FixedArray(e, n) => TE::FixedArray {
             element: vars[*e],
-            length:  ethnum::U256::from(*n),
+            length:  fa_len(*n),
         },
         J::Packed(spans, is_struct) => TE::Packed {
             types:     spans.iter().map(|(t, o, s)| Span::new(vars[*t], *o, *s)).collect(),
@@ -221,7 +234,7 @@ pub fn gen_set(ch: &mut Chooser) -> JSet {
                 J::Mapping(ch.below(nvars), value)
             }
             14 => J::DynArray(if ch.chance(1, 8) { v } else { ch.below(nvars) }),
-            15 | 16 => J::FixedArray(ch.below(nvars), *ch.pick(&[1u64, 2, 3])),
+            15 | 16 => J::FixedArray(ch.below(nvars), *ch.pick(&[1u64, 2, 3, 3, 2, 1000, 1001, 1002, 1003])),
             _ => {
                 let n = ch.range(1, 4);
                 let spans = (0..n)
